@@ -494,7 +494,38 @@ def case_hash(reqs):
 CHUNK = 25000
 
 
-def run_job(prop, job, tier, seed, fset, factor=1):
+def anchor_drift(prop):
+    """files named in the property's anchors whose content differs from the recorded baseline
+    (tools/anchors.json, written by `./check anchors` on the tree the models were written for).
+    It decides nothing; a drifted anchor makes the quick tier generate more cases."""
+    try:
+        base = json.load(open(os.path.join(R.VERIF, "tools", "anchors.json")))
+        files = next(json.loads(l)["anchors"]["files"] for l in open(os.path.join(R.VERIF, "properties.jsonl")) if json.loads(l)["id"] == prop)
+    except Exception:
+        return []
+    out = []
+    for f in files:
+        p = os.path.join(R.REPO, f)
+        h = hashlib.sha256(open(p, "rb").read()).hexdigest() if os.path.exists(p) else "missing"
+        if base.get(f) != h:
+            out.append(f)
+    return out
+
+
+def write_anchors():
+    files = set()
+    for l in open(os.path.join(R.VERIF, "properties.jsonl")):
+        if l.strip():
+            files |= set(json.loads(l)["anchors"]["files"])
+    base = {}
+    for f in sorted(files):
+        p = os.path.join(R.REPO, f)
+        base[f] = hashlib.sha256(open(p, "rb").read()).hexdigest() if os.path.exists(p) else "missing"
+    json.dump(base, open(os.path.join(R.VERIF, "tools", "anchors.json"), "w"), indent=1)
+    print(f"{len(base)} anchored files recorded")
+
+
+def run_job(prop, job, tier, seed, fset, factor=1, extended=False):
     """-> dict(mism, cases, records, nontrivial, distinct, samples, status, dist); large runs are
     processed in chunks (one generator seed per chunk) to bound memory"""
     harness = R.harness_path(fset)
@@ -503,7 +534,7 @@ def run_job(prop, job, tier, seed, fset, factor=1):
     # corpus of minimised past failures first
     corpus = ""
     cdir = os.path.join(R.VERIF, "corpus", prop)
-    if os.path.isdir(cdir) and factor == 1:
+    if os.path.isdir(cdir) and not extended:
         for f in sorted(os.listdir(cdir)):
             if f.endswith(".case"):
                 corpus += open(os.path.join(cdir, f)).read().rstrip("\n") + "\n"
@@ -589,6 +620,10 @@ def check_property(prop, tier, seed):
     built = set()
     results = []
     build_fail = None
+    drift = anchor_drift(prop)
+    factor = 4 if (drift and tier == "quick") else 1
+    if drift:
+        R.log(f"anchor drift: {', '.join(drift)} changed since the models were written" + (" - quick tier runs 4x the cases" if factor > 1 else ""))
     if any(j.needs_bins for j in cfg["jobs"]):
         ok, err = R.build_repo_bins()
         if not ok:
@@ -603,7 +638,7 @@ def check_property(prop, tier, seed):
                     build_fail = f"harness build failed for feature set {fset}: {err[-1500:]}"
                     break
                 built.add(fset)
-            res = run_job(prop, job, tier, seed, fset)
+            res = run_job(prop, job, tier, seed, fset, factor=factor)
             res["job"] = job
             res["fset"] = fset
             results.append(res)
@@ -684,7 +719,7 @@ def decide(prop, tier, seed, cfg, proof, results, build_fail, known, extra_res, 
         for res in results:
             job = res["job"]
             for k in range(1, 4):
-                r2 = run_job(prop, job, tier, seed * 1000 + 17 * k, res["fset"], factor=7)
+                r2 = run_job(prop, job, tier, seed * 1000 + 17 * k, res["fset"], factor=7, extended=True)
                 ext_cases += r2["cases"]
                 pm = [m for m in r2["mism"] if m.kind in ("prop", "hang", "crash")]
                 pm = [m for m in pm if not R.match_known(prop, m, known)]
@@ -765,6 +800,7 @@ def decide(prop, tier, seed, cfg, proof, results, build_fail, known, extra_res, 
         "property_oracle_failures": len(prop_mism),
         "known_findings_reproduced": sorted(seen_known),
         "distribution": dict(sorted(dist.items())[:60]),
+        "anchor_drift": anchor_drift(prop),
     }
     if extra_res:
         coverage["extra"] = extra_res.get("coverage", {})
@@ -850,6 +886,9 @@ def main(argv):
         return 2
     if argv[0] == "setup":
         sys.exit(setup())
+    if argv[0] == "anchors":
+        write_anchors()
+        sys.exit(0)
     prop = argv[0]
     tier = os.environ.get("VERIF_TIER", "quick")
     seed = int(os.environ.get("VERIF_SEED", "1"))
